@@ -68,11 +68,15 @@ DOCS = [
     # siblings that inherit their direction from the same parent, asked for BOTH directions in one query
     ('html.parser', '<div dir="rtl" id="da"><span id="db">a</span><p id="dc">b</p><span id="dd">c</span><p id="de">d</p></div>'
      '<div id="df"><span id="dg">e</span><p id="dh">f</p><bdi id="di">g</bdi></div>'),
+    # a form whose controls sit partly inside an iframe: the library's own definitions (:default = "html|form input ..." evaluated without
+    # crossing the iframe) next to the SAME relation written by the caller (which does cross it)
+    ('html.parser', '<form id="fa"><input type="submit" id="fb"><iframe id="fi"><html><body><input type="submit" id="fc"><input id="fd"></body></html></iframe>'
+     '<input type="submit" id="fe"></form>'),
 ]
 # edits made through the bs4 API after parsing (to the working tree and to the pristine copy alike): attribute values of the shapes the API
 # permits (lists holding non-strings, bytes, numbers) on attributes that attribute / class selectors read.  Reading them must not rewrite them.
 EDITS = {0: [('p1', 'data-n', [3, '4']), ('p2', 'class', ['a', b'b']), ('s1', 'data-n', 7), ('r1', 'data-n', ['x', ['y']])]}
-NS = {'x': 'urn:x'}
+NS = {'x': 'urn:x', 'html': 'http://www.w3.org/1999/xhtml'}
 
 
 def _rand_doc(rng):
@@ -112,7 +116,8 @@ SELS = [':lang("")', ':lang(en)', ':lang("*")', ':default', ':indeterminate', ':
         ':has(> :default)', ':nth-child(2 of :lang(en))', ':scope > *', ':lang(de, fr)', 'input:not(:indeterminate)',
         ':-soup-contains(x)', ':enabled', 'x|item:not(:checked)', 'x|item, :checked', ':is(x|item):not(:disabled)', 'x|*', 'p:lang(en)']
 # the order matters for the reduced BFS pools (prefixes of these lists): most history-sensitive first
-SELS += [':scope + tr td', 'form:has(:default)', 'span:dir(rtl), p:dir(ltr)', 'p:dir(rtl), span:dir(ltr)', ':lang(en), :lang(de)', '[data-n~="4"]', '.a', '[data-n]:not([data-n="7"])']
+SELS += [':scope + tr td', 'form:has(:default)', 'span:dir(rtl), p:dir(ltr)', 'p:dir(rtl), span:dir(ltr)', ':lang(en), :lang(de)', '[data-n~="4"]', '.a', '[data-n]:not([data-n="7"])',
+         ':default, html|form input', 'html|form input, :default', 'html|form :is(input, button):not(:default)']
 SELS = [SELS[i] for i in (1, 20, 3, 4, 0, 24, 16, 21)] + [x for i, x in enumerate(SELS) if i not in (1, 20, 3, 4, 0, 24, 16, 21)]
 USES_SCOPE = {':scope > *', ':scope + tr td'}
 KINDS = ['select', 'match', 'filter', 'closest', 'select_one', 'iselect1', 'filter_iter']
@@ -348,6 +353,124 @@ def _mutation_part(chk):
     chk.count(n, traces=n)
 
 
+LAZY_SELS = ['li:nth-child(1 of .todo)', 'li:nth-last-child(1 of .todo)', 'li:nth-child(2n+1 of .todo)', 'li:nth-child(odd of :not(.done))',
+             '.todo', 'li.todo + li', 'li:not(.done)', 'ul:has(> .todo) li', 'li:nth-of-type(2)', 'li:first-child ~ .todo', 'li.todo ~ li', '[class~="todo"]',
+             'li:is(.todo, .x)', 'li:nth-last-of-type(-n+2)', 'ul > li:nth-child(n+2 of li.todo)', ':root li.todo']
+LAZY_DOCS = ['<ul><li class="todo" id="a1">1</li><li class="todo" id="a2">2</li><li class="todo" id="a3">3</li></ul>',
+             '<ul><li class="todo">1</li>t<li class="x">2</li><!--c--><li class="todo">3</li><li class="done">4</li><li class="todo">5</li></ul><ul><li class="todo">6</li><li class="todo">7</li></ul>',
+             '<div><ul><li class="todo">1<ul><li class="todo">a</li><li class="todo">b</li></ul></li><li class="todo">2</li></ul></div>']
+
+
+def _lazy_part(chk):
+    """one lazy call that spans changes of the tree: iselect() is consumed element by element and the consumer ticks the element it was just
+    handed (class todo -> done) - or its previous sibling - before asking for the next one.  Every element must be judged against the tree as
+    it is when the walk reaches it: the reference walks the same elements in document order, asks match() about each one alone (a fresh
+    matcher, nothing remembered) and applies the same change after each hit.  Only class changes and selectors without a per-call memo in
+    the library (no :lang / :default / :indeterminate / :dir) are used: what a lazy call may remember of THOSE is not stated by the property."""
+    import warnings
+    warnings.simplefilter('ignore')
+    sv, bs4 = common.import_repo()
+    n = 0
+
+    def tick(el, mode):
+        t = el if mode == 'self' else el.find_previous_sibling(True)
+        if t is not None and t.get('class') is not None:
+            cl = t['class'] if isinstance(t['class'], list) else t['class'].split()
+            cl = ['done' if c == 'todo' else c for c in cl]
+            t['class'] = cl if isinstance(t['class'], list) else ' '.join(cl)
+
+    for d, markup in enumerate(LAZY_DOCS):
+        for parser in ('html.parser', 'lxml', 'xml'):
+            for css in LAZY_SELS:
+                for mode in ('self', 'prev'):
+                    n += 1
+                    want, got = [], []
+                    ref = bs4.BeautifulSoup(markup, parser)
+                    els = [t for t in ref.descendants if isinstance(t, bs4.Tag)]
+                    try:
+                        for i, el in enumerate(els):
+                            if sv.match(css, el):
+                                want.append(i)
+                                tick(el, mode)
+                        soup = bs4.BeautifulSoup(markup, parser)
+                        idx = {id(t): i for i, t in enumerate(t for t in soup.descendants if isinstance(t, bs4.Tag))}
+                        for el in sv.iselect(css, soup):
+                            got.append(idx[id(el)])
+                            tick(el, mode)
+                    except Exception as ex:
+                        got = type(ex).__name__ + ': ' + str(ex)[:80]
+                    if got != want:
+                        chk.violation('lazy|%d|%s|%s|%s' % (d, parser, css, mode),
+                                      'iselect(%r) over %r (%s), the consumer turning class todo into done on %s after each element it is handed: yielded '
+                                      'elements %r, but judged one by one against the tree as it is when the walk reaches them: %r' %
+                                      (css, markup, parser, 'that element' if mode == 'self' else 'its previous sibling', got, want),
+                                      {'cfg': 'lazy', 'group': 'lazy iteration over a changing tree', 'selector': css, 'doc': d})
+    chk.count(n, traces=n)
+
+
+# documents for the process part: the same attribute TEXT (prefix:name) bound to different namespaces in different documents and within one
+# document; same-named radio groups / languages in different documents
+PROC_DOCS = [('xml', '<r xmlns:p="urn:x"><e p:t="1" id="pa"/><f p:t="2" id="pb"/></r>'),
+             ('xml', '<r xmlns:p="urn:y"><e p:t="1" id="pc"/><f xmlns:q="urn:x" q:t="2" id="pd"/></r>'),
+             ('xml', '<r><e xmlns:p="urn:y" p:t="1" id="pe"/><e xmlns:p="urn:x" p:t="1" id="pf"/><e xmlns:p="urn:y" p:t="1" id="pg"/></r>'),
+             ('xml', '<p:r xmlns:p="urn:y"><p:item id="ph"/><item xmlns="urn:x" id="pi"/></p:r>'),
+             ('xml', '<p:r xmlns:p="urn:x"><p:item id="pj"/><item xmlns="urn:y" id="pk"/></p:r>')]
+PROC_SELS = ['[x|t]', '[x|t="1"]', '[*|t]', '[t]', 'x|item', 'x|*', ':not([x|t])', 'e:nth-of-type(2)', 'x|r > x|item']
+PROC_CHILD = r"""
+import sys, json, warnings
+sys.path.insert(0, %(repo)r)
+warnings.simplefilter('ignore')
+import soupsieve as sv
+import bs4
+docs, sels, order, ns = json.loads(%(payload)r)
+out = {}
+for d in order:
+    parser, markup = docs[d]
+    soup = bs4.BeautifulSoup(markup, parser)
+    idx = {id(t): i for i, t in enumerate(x for x in soup.descendants if isinstance(x, bs4.Tag))}
+    for css in sels:
+        try:
+            out['%%d|%%s' %% (d, css)] = sorted(idx[id(t)] for t in sv.select(css, soup, ns))
+        except Exception as ex:
+            out['%%d|%%s' %% (d, css)] = type(ex).__name__
+print(json.dumps(out))
+"""
+
+
+def _process_part(chk):
+    """what a PROCESS remembers (Session.tla, Lifetime = "process": refuted by TLC above).  The same documents are queried with the same
+    selectors in fresh interpreters, in different document orders; the answer for a (document, selector) must be the same in every one of
+    them.  Within one process every order after the first is already coloured by the first, so the orders are run in separate processes."""
+    import subprocess
+    docs = [d for d in _all_docs() if d[0] != 'html5lib'] + PROC_DOCS
+    sels = [c for c in SELS if c not in USES_SCOPE] + PROC_SELS
+    n = len(docs)
+    rng = random.Random(common.SEED * 17 + 5)
+    orders = [list(range(n)), list(reversed(range(n)))]
+    for _ in range(2):
+        o = list(range(n))
+        rng.shuffle(o)
+        orders.append(o)
+    env = dict(os.environ, PYTHONHASHSEED='0')
+    outs = []
+    for o in orders:
+        payload = json.dumps([docs, sels, o, NS])
+        p = subprocess.run(['/venv/bin/python', '-c', PROC_CHILD % {'repo': common.REPO, 'payload': payload}], capture_output=True, text=True, env=env, timeout=600)
+        try:
+            outs.append(json.loads(p.stdout.strip().splitlines()[-1]))
+        except Exception:
+            chk.machinery('process part: child failed: ' + (p.stdout + p.stderr)[-300:])
+            return
+    for key in outs[0]:
+        vals = [o[key] for o in outs]
+        if any(v != vals[0] for v in vals):
+            d, css = key.split('|', 1)
+            chk.violation('process|' + key, 'select(%r) on document %s (%s) answered %r when the documents are visited in the order %r of a fresh interpreter, but %r in another order: '
+                          'the answer depends on what the process was asked before' % (css, d, docs[int(d)][1][:120], vals[0], orders[0][:6], [v for v in vals if v != vals[0]][0]),
+                          {'cfg': 'process', 'group': 'answers depend on the order of documents in a process', 'selector': css, 'doc': int(d)})
+    chk.count(len(outs) * len(outs[0]), traces=len(outs) * len(outs[0]))
+
+
 def main(tier):
     chk = common.Check('C04', tier)
     chk.assumptions += ['observations are compared through abstract node positions of each document; a pristine deepcopy gives the reference rows',
@@ -442,4 +565,6 @@ def main(tier):
         os.rmdir(tmpd)
     _alone_part(chk)
     _mutation_part(chk)
+    _lazy_part(chk)
+    _process_part(chk)
     return chk.finish()
